@@ -23,6 +23,7 @@ import sys
 import threading
 import time
 import traceback
+import warnings
 from concurrent.futures import ProcessPoolExecutor
 import multiprocessing as mp
 
@@ -48,6 +49,9 @@ CASE_TIMEOUT_S = int(os.environ.get("VERIF_CASE_TIMEOUT_S", "60"))
 
 def _on_alarm(signum, frame):
     raise CaseTimeout()
+
+
+warnings.simplefilter("ignore", DeprecationWarning)      # the deprecated camelCase aliases are exercised on purpose
 
 
 class InvalidCase(Exception):
